@@ -233,7 +233,7 @@ class Universe:
             return None
         # (lost+found is pre-allocated with many empty blocks: it is not the interesting one to wipe)
         ino = max([i for i in cand if i != inf.first_ino] or cand, key=lambda i: (count[i], -i))
-        if k >= 2 * len(self.names):
+        if 2 * len(self.names) <= k < 4 * len(self.names):
             # cross-claim: a regular file with a higher inode number maps the first block of a
             # multi-block directory as its own first block (passes 1B-1D have to clone it; with
             # bigalloc the blocks of the directory share a cluster)
@@ -269,6 +269,15 @@ class Universe:
         base = inf.inodes[ino]["off"]
         p = [(base, bytes(128))] if how == "zero-inode" else [(base, b"\0\0")]
         d = [("inode", "dir", how, "ino%d (largest directory)" % ino)]
+        if k >= 4 * len(self.names):
+            # ... and /lost+found gone as well: the new one starts with a single block (cluster) and
+            # has to grow while the orphans are reconnected
+            lf = inf.inodes.get(inf.first_ino)
+            if not lf or not lf.get("isdir") or ino == inf.first_ino:
+                return None
+            return self._finish(-(k + 1), name, inf, "all",
+                                d + [("inode", "dir", "zero-inode", "ino%d (lost+found)" % inf.first_ino)],
+                                [p, [(lf["off"], bytes(128))]])
         return self._finish(-(k + 1), name, inf, "all", d, [p])
 
     def subset(self, case, keep, profile="all"):
